@@ -262,6 +262,15 @@ Qed.
 Lemma InvC_set_now g t : InvC g -> InvC (with_w g (set_now (gw g) t)).
 Proof. intros [C1 C2 C3 C4 C5]. constructor; cbn [with_w gw gl gdout gderr ginput0]; wsimpl; auto. Qed.
 
+Lemma InvB_set_prog s w r : alive w = true -> InvB s w -> InvB s (set_prog w r).
+Proof. intros A [? ? ? ? ? ? ? ? ? ? ? ? ? ? ?]. constructor; wsimpl; auto. intros H; congruence. Qed.
+
+Lemma InvC_set_prog g r t : InvC g -> InvC (with_w g (set_now (set_prog (gw g) r) t)).
+Proof. intros [C1 C2 C3 C4 C5]. constructor; cbn [with_w gw gl gdout gderr ginput0]; wsimpl; auto. Qed.
+
+Lemma blocked_alive w k : child_step w k = CBlocked -> alive w = true.
+Proof. unfold child_step. destruct (alive w); [reflexivity|discriminate]. Qed.
+
 (* ---------- a child step preserves the whole invariant ---------- *)
 
 Lemma inv_child g k g' : Inv g -> gstep g (GChild k) = Some g' -> Inv g'.
@@ -276,9 +285,9 @@ Proof.
   - destruct (prog (gw g)) as [|[| | | |t|] r]; try discriminate. injection H as <-.
     constructor; cbn [with_w gl ga gw].
     + exact HJ.
-    + eapply ready_of_mono; [apply set_now_mono|exact HR].
-    + apply InvB_set_now. exact HB.
-    + apply InvC_set_now. exact HC.
+    + eapply ready_of_mono; [|exact HR]. apply mono_same; reflexivity.
+    + apply InvB_set_now. apply InvB_set_prog; [exact (blocked_alive _ _ E)|exact HB].
+    + apply InvC_set_prog. exact HC.
   - discriminate.
 Qed.
 
@@ -420,7 +429,7 @@ Lemma step_poll_ready s fi fo fe tmo cnt ri ro re w :
 Proof.
   intros Hj Hi Ho He. unfold step.
   assert (exists pdl ovf, pc s = PPoll pdl ovf) as [pdl [ovf P]].
-  { cbn [J] in Hj. destruct Hj as [_ [_ [_ [_ [[ovf [P _]]|[d [ovf [P _]]]]]]]]; eauto. }
+  { cbn [J] in Hj. destruct Hj as [_ [_ [_ [_ [[P _]|[d [ovf [P _]]]]]]]]; eauto. }
   rewrite P. destruct (negb (cnt =? 0)%N || negb ovf).
   - apply after_flags_ready; assumption.
   - destruct pdl; [split; exact I|apply ret_ready].
